@@ -308,7 +308,7 @@ func reservedWrites(apps []fakeredis.App) []fakeredis.App {
 
 // NewEnv generates the stream of a case (no run yet).
 func NewEnv(r *rand.Rand, c Case, d *Driver, f TargetFactory) *Env {
-	e := &Env{C: c, D: d, Factory: f, Watch: 30 * time.Second}
+	e := &Env{C: c, D: d, Factory: f, Watch: 120 * time.Second}
 	e.IDs = SourceRunIDs()
 	e.RunID = e.IDs[0]
 	e.Stream = gen.GenStream(r, gen.StreamOptions{Hist: "b" + alnum(strings.TrimPrefix(c.Key, "case-")), NCmds: c.NCmds, MaxDB: 2,
